@@ -16,6 +16,7 @@ Line protocol of the C04 driver (one line in, one line out).  Floats are printed
                  uniformdoc(low,high,_)
         modes: one char per parameter: s = Python scalar, l = Python list, a = ndarray, - = unused
   cdf <family> <x> <p1> <p2> <componentcdfs>      -> `value q:<combined>` | `-inf` | `zero`
+  gausscov <form> <kind> <dim> <M>                -> `ok <exact covariance>` | `raise` | `nan` | `unsupported`
   gauss <form> <kind> <dim> <x> <mu> <M>          -> `ok <rank> <detCov> <quad> <f:logpdf> <f:logupdf> <P|->`
                                                       | `raise` | `nologdet <quad>` | `nan` | `unsupported`
   logn <kind> <dim> <x> <logx> <mu> <M>           -> `-inf` | `ok <f:logpdf>` | `raise` | ...
@@ -199,6 +200,16 @@ def step : List String → String
     match Form.ofString form, Kind.ofString kind, dim.toNat?, parseVec x, parseVec mu, parseMat M with
     | some form, some kind, some dim, some x, some mu, some M => stepGauss form kind dim x mu M
     | _, _, _, _, _, _ => "bad-op"
+  | ["gausscov", form, kind, dim, M] =>
+    match Form.ofString form, Kind.ofString kind, dim.toNat?, parseMat M with
+    | some form, some kind, some dim, some M =>
+      match canon form kind dim M with
+      | .ok c => match canonCov c with | some C => s!"ok {fmtMat C}" | none => "unsupported"
+      | .raises => "raise"
+      | .nan => "nan"
+      | .noLogdet P => match QMat.inverse P with | some C => (if QMat.isInverse P C then s!"ok {fmtMat C}" else "unsupported") | none => "unsupported"
+      | .unsupported => "unsupported"
+    | _, _, _, _ => "bad-op"
   | ["logn", kind, dim, x, logx, mu, M] =>
     match Kind.ofString kind, dim.toNat?, parseVec x, parseVec logx, parseVec mu, parseMat M with
     | some kind, some dim, some x, some logx, some mu, some M => stepLogn kind dim x logx mu M
